@@ -526,6 +526,11 @@ pub mod events {
             "prev_state": [],
             "redacts": "$gone:sender.org",
             "foo": {"bar": [1, "é", null]},
+            // keys some homeserver implementations keep for themselves next to an event: for the hashes they
+            // are ordinary top-level keys (covered by the content hash, stripped by redaction)
+            "age_ts": 1_700_000_000_000i64,
+            "outlier": false,
+            "destinations": ["other.org"],
             "unsigned": {"age": 5, "prev_content": {"k": "v"}},
         }));
         if let Some(sk) = state_key {
